@@ -206,9 +206,16 @@ func genFaults(cfg simkit.RunConfig, backend string) *Scenario {
 		r2 := simkit.Rand(cfg.Seed, "persist")
 		i := r2.Intn(maxFaultPos / 2)
 		sc.Net.Plan[fmt.Sprintf("ord:0:%s+%d", mark, i)] = pick(r2, []simkit.Fate{simkit.DropResp, simkit.DropRespSlow, simkit.DropReq, simkit.Deliver})
-		switch r2.Intn(3) {
+		switch r2.Intn(4) {
 		case 0, 1:
 			sc.Net.Persist = map[string]simkit.Fate{fmt.Sprintf("ord:0:%s+%d", mark, i+1): pick(r2, []simkit.Fate{simkit.RERegionNotFound, simkit.REEpochNotMatch, simkit.RENotLeader, simkit.REServerIsBusy, simkit.DropReq, simkit.REStaleCommand})}
+		case 2:
+			// a split between the keys of one request (the batch is re-grouped and its parts are sent one after the
+			// other), the first part goes through, then nothing does any more
+			sc.Knobs.InnerSplits = true
+			sc.Knobs.CommitBatchSize = 0
+			sc.Net.Plan[fmt.Sprintf("ord:0:%s+%d", mark, i)] = simkit.TopoSplit
+			sc.Net.Persist = map[string]simkit.Fate{fmt.Sprintf("ord:0:%s+%d", mark, i+2): pick(r2, []simkit.Fate{simkit.DropReq, simkit.RERegionNotFound, simkit.DropReq})}
 		default:
 			sc.Txns[0].CancelMs = 1 + r2.Intn(400)
 			sc.Net.Plan[fmt.Sprintf("ord:0:%s+%d", mark, i+1)] = pick(r2, []simkit.Fate{simkit.RERegionNotFound, simkit.REEpochNotMatch, simkit.Stall})
